@@ -100,6 +100,12 @@ fn real_params(n: usize, s: &[u8], normalised: bool) -> WmcParams<RealSemiring> 
             );
         }
     }
+    // 0..3 weights are set once more to the value they have: the table's content is what was asked for, the number of
+    // updates it has seen differs from query to query (tables that differ in content but not in "age" then meet)
+    for v in 0..(sel(s, 1, 0) as usize % 4).min(n) {
+        let (l, h) = p.var_weight(VarLabel::new_usize(v)).clone();
+        p.set_weight(VarLabel::new_usize(v), l, h);
+    }
     p
 }
 
@@ -110,6 +116,12 @@ fn eu_params(n: usize, s: &[u8]) -> WmcParams<ExpectedUtility> {
         let u = (sel(s, v, 1) % 5) as f64;
         p.set_weight(VarLabel::new_usize(v), ExpectedUtility(1.0 - k, 0.0), ExpectedUtility(k, k * u));
     }
+    // 0..3 weights are set once more to the value they have: the table's content is what was asked for, the number of
+    // updates it has seen differs from query to query (tables that differ in content but not in "age" then meet)
+    for v in 0..(sel(s, 1, 0) as usize % 4).min(n) {
+        let (l, h) = p.var_weight(VarLabel::new_usize(v)).clone();
+        p.set_weight(VarLabel::new_usize(v), l, h);
+    }
     p
 }
 
@@ -118,6 +130,12 @@ fn ff_params<const P: u128>(n: usize, s: &[u8]) -> WmcParams<FiniteField<P>> {
     for v in 0..n {
         let r = (sel(s, v, 0) as u128 * 0x9E37_79B9 + sel(s, v, 1) as u128 * 65537 + 3) % P;
         p.set_weight(VarLabel::new_usize(v), FiniteField::new(P + 1 - r), FiniteField::new(r));
+    }
+    // 0..3 weights are set once more to the value they have: the table's content is what was asked for, the number of
+    // updates it has seen differs from query to query (tables that differ in content but not in "age" then meet)
+    for v in 0..(sel(s, 1, 0) as usize % 4).min(n) {
+        let (l, h) = p.var_weight(VarLabel::new_usize(v)).clone();
+        p.set_weight(VarLabel::new_usize(v), l, h);
     }
     p
 }
